@@ -584,24 +584,33 @@ Proof.
   replace (j - s)%nat with (S (j - S s)) by lia. reflexivity.
 Qed.
 
+Lemma imgsum_map_seq0 (w : Z -> Z -> Z) (g : nat -> list Z) n :
+  imgsum w 0 (map g (seq 0 n)) = zsum (map (fun j => rowsum (w (Z.of_nat j)) 0 (g j)) (seq 0 n)).
+Proof. exact (imgsum_map_seq w g 0 n). Qed.
+Lemma rowsum_as_zsum0 (w : Z -> Z) (r : list Z) :
+  rowsum w 0 r = zsum (map (fun j => w (Z.of_nat j) * nth j r 0) (seq 0 (length r))).
+Proof.
+  etransitivity; [exact (rowsum_as_zsum w r 0)|]. apply zsum_map_ext. intros j _.
+  replace (j - 0)%nat with j by lia. reflexivity.
+Qed.
+
 Lemma wsum_transpose w ny nx a : rect ny nx a ->
   wsum w (transpose 0 nx a) = wsum (fun y x => w x y) a.
 Proof.
   revert w ny. induction a as [|r a IH]; intros w ny [Hl Hr].
-  - unfold wsum, transpose. change 0 with (Z.of_nat 0) at 1. rewrite imgsum_map_seq.
-    cbn [map rowsum imgsum]. apply zsum_map_zero.
+  - unfold wsum, transpose. rewrite imgsum_map_seq0. cbn [map rowsum imgsum]. apply zsum_map_zero.
   - inversion Hr as [|? ? Hr1 Hr2]; subst.
     assert (Hra : rect (length a) (length r) a) by (split; [reflexivity|exact Hr2]).
-    unfold wsum. cbn [imgsum]. unfold transpose.
-    change 0 with (Z.of_nat 0) at 1. rewrite imgsum_map_seq. cbn [map rowsum].
-    rewrite zsum_map_add. f_equal.
-    + change 0 with (Z.of_nat 0) at 3. rewrite rowsum_as_zsum. apply zsum_map_ext.
-      intros j Hj. replace (j - 0)%nat with j by lia. reflexivity.
-    + specialize (IH (fun y x => w y (x + 1)) (length a) Hra). unfold wsum, transpose in IH.
-      change 0 with (Z.of_nat 0) in IH at 1. rewrite imgsum_map_seq in IH.
-      rewrite (imgsum_offset _ 0 1). cbn [Z.add] in *.
-      etransitivity; [|exact IH]. apply zsum_map_ext. intros j Hj.
-      change 1 with (0 + 1) at 1. rewrite rowsum_offset. reflexivity.
+    specialize (IH (fun y x => w y (x + 1)) (length a) Hra).
+    unfold wsum in *. unfold transpose in *. rewrite imgsum_map_seq0 in IH. rewrite imgsum_map_seq0.
+    cbn [imgsum].
+    transitivity (zsum (map (fun j : nat => w (Z.of_nat j) 0 * nth j r 0 +
+                       rowsum (fun v => w (Z.of_nat j) (v + 1)) 0 (map (fun r' : list Z => nth j r' 0) a))
+                     (seq 0 (length r)))).
+    + apply zsum_map_ext. intros j _. cbn [map rowsum]. rewrite (rowsum_offset _ 0 1). reflexivity.
+    + rewrite zsum_map_add, IH. f_equal.
+      * symmetry. apply (rowsum_as_zsum0 (fun x => w x 0) r).
+      * symmetry. apply (imgsum_offset (fun y x => w x y) 0 1 a).
 Qed.
 
 (* ================================================================== *)
@@ -641,8 +650,8 @@ Proof.
 Qed.
 
 Lemma centroid_embed dy dx NY NX a : M00 a <> 0 ->
-  (centroid_x (embed 0 dy dx NY NX a) == centroid_x a + inject_Z (Z.of_nat dx))%Q /\
-  (centroid_y (embed 0 dy dx NY NX a) == centroid_y a + inject_Z (Z.of_nat dy))%Q.
+  (centroid_x (embed 0%Z dy dx NY NX a) == centroid_x a + inject_Z (Z.of_nat dx))%Q /\
+  (centroid_y (embed 0%Z dy dx NY NX a) == centroid_y a + inject_Z (Z.of_nat dy))%Q.
 Proof.
   intros H0. unfold centroid_x, centroid_y, qdiv. rewrite M00_embed, M10_embed, M01_embed.
   assert (Hq : ~ (inject_Z (M00 a) == 0)%Q).
@@ -728,10 +737,23 @@ Proof.
   rewrite map3_app by (rewrite !repeat_length; reflexivity).
   rewrite map3_app by (rewrite !map_length; lia).
   rewrite !map3_repeat, Hz.
-  unfold fg_img in Hlen. rewrite Hlen, Hd1, Ht1, Hm1, !map3_repeat, !map3_repeat, Hz.
+  unfold fg_img in Hlen. rewrite Hlen, Hd1, Ht1, Hm1, !map3_repeat, Hz.
   f_equal. f_equal.
   clear Hlen. subst ny. revert thr mask Ht1 Hm1 Ht2 Hm2.
   induction Hd2 as [|rd data Hrd Hd2 IH]; intros [|rt thr] [|rm mask]; cbn [length map map3]; try discriminate; auto.
   intros Ht1 Hm1 Ht2 Hm2. inversion Ht2; subst. inversion Hm2; subst.
   rewrite fg_row_pad by (assumption || congruence). f_equal. apply IH; auto.
+Qed.
+
+(* pixel view of the embedding, both halves *)
+Lemma embed_pixels {A} (z : A) dy dx NY NX ny nx (a : img A) :
+  rect ny nx a -> (dy + ny <= NY)%nat -> (dx + nx <= NX)%nat ->
+  (forall y x, (y < ny)%nat -> (x < nx)%nat -> get z (embed z dy dx NY NX a) (dy + y) (dx + x) = get z a y x) /\
+  (forall y x, (y < NY)%nat -> (x < NX)%nat ->
+     ~ ((dy <= y < dy + ny)%nat /\ (dx <= x < dx + nx)%nat) -> get z (embed z dy dx NY NX a) y x = z).
+Proof.
+  intros Hr HY HX. split.
+  - intros y x Hy Hx. destruct Hr as [Hl Hrows]. apply get_embed_in; [lia|].
+    rewrite Forall_forall in Hrows. rewrite (Hrows (nth y a [])); [exact Hx|]. apply nth_In. lia.
+  - intros y x Hy Hx Hout. apply (get_embed_out z dy dx NY NX ny nx a y x); assumption.
 Qed.
